@@ -113,7 +113,9 @@ def search_histories(chk, r, n):
     """real runs: every point's result must be bit-identical to its single-point run"""
     pool = [dict(x=0.1, Q2=10.0), dict(x=0.3, Q2=10.0), dict(x=0.3, Q2=40.0), dict(Q2=0.3, x=0.7), dict(x=0.7, Q2=0.3), dict(x=0.3, Q2=0.7), dict(x=0.55, Q2=40.0), dict(Q2=10.0, x=0.1)]
     forced = [dict(sv=dict(FactScaleVar=False, FNS="FFNS", NfFF=3), alias=False), dict(sv=dict(FactScaleVar=False), alias=True), dict(sv=dict(RenScaleVar=False, FactScaleVar=False), alias=False), dict(sv={}, alias=True),
-              dict(sv={}, alias=False, multi_nf=True), dict(sv=dict(RenScaleVar=False), alias=False, multi_nf=True)]
+              dict(sv={}, alias=False, multi_nf=True), dict(sv=dict(RenScaleVar=False), alias=False, multi_nf=True),
+              # a cross section listed before structure functions at the same (x, Q2, y), one of its points twice
+              dict(sv={}, alias=False, xs_dup=True), dict(sv=dict(FactScaleVar=False), alias=False, xs_dup=True)]
     for i_case in range(n + len(forced)):
         tmc = r.choice([0, 0, 1, 3])
         process = r.choice(["NC", "CC", "EM"])
@@ -125,6 +127,8 @@ def search_histories(chk, r, n):
             tmc, pto, fl = 0, 1, "total"
             if force.get("multi_nf"):
                 kinds, process = ["F2", "FL"], "NC"
+            if force.get("xs_dup"):
+                kinds, process = ["FL", "F3"], r.choice(["NC", "CC"])
         names = [f"{k}_{fl}" for k in kinds]
         grid = cards.default_grid(7, 0.05)
         # the scale-variation switches are legal card entries: every combination
@@ -146,9 +150,20 @@ def search_histories(chk, r, n):
             other = [copy.deepcopy(p) for p in r.sample(pool, 2)]
             obs = {short: other, **obs} if r.random() < 0.5 else {**obs, short: other}
         with_xs = r.random() < 0.4 and process != "EM"
-        if with_xs:
+        xs_dup = bool(force and force.get("xs_dup"))
+        xs_pts, xsn = [], None
+        if with_xs or xs_dup:
+            with_xs = True
             xsn = ("XSHERACC" if process == "CC" else "XSHERANC") + f"_{fl}"
-            obs = {xsn: [dict(x=pts[0]["x"], Q2=pts[0]["Q2"], y=0.5)], **obs} if r.random() < 0.5 else {**obs, xsn: [dict(x=pts[0]["x"], Q2=pts[0]["Q2"], y=0.5)]}
+            xs_pts = [dict(x=pts[0]["x"], Q2=pts[0]["Q2"], y=0.5)]
+            if xs_dup or r.random() < 0.5:
+                # more than one point, one of them listed twice
+                xs_pts = xs_pts + [dict(x=pts[-1]["x"], Q2=pts[-1]["Q2"], y=0.3), dict(xs_pts[0])]
+            if xs_dup or r.random() < 0.5:
+                # the structure functions are requested at the very same kinematics (y included)
+                pts[0]["y"] = 0.5
+                obs = {nm: [copy.deepcopy(p) for p in pts] for nm in obs} if set(obs) == set(names) else {nm: ([copy.deepcopy(p) for p in pts] if nm in names else lst) for nm, lst in obs.items()}
+            obs = {xsn: copy.deepcopy(xs_pts), **obs} if (xs_dup or r.random() < 0.5) else {**obs, xsn: copy.deepcopy(xs_pts)}
         try:
             import yadism
 
@@ -191,6 +206,17 @@ def search_histories(chk, r, n):
         for nm, lst in obs.items():
             if len(big[nm]) != len(lst) or any(float(res_.x) != p_["x"] or float(res_.Q2) != p_["Q2"] for res_, p_ in zip(big[nm], lst)):
                 problems.append(f"{nm}: the output does not hold the points requested under that name")
+        if xsn is not None and not problems:
+            # every cross-section entry against the same point computed alone
+            try:
+                for j_, xp in enumerate(xs_pts):
+                    alone = realrun.run(th, cards.obs({xsn: [copy.deepcopy(xp)]}, **kw))[xsn][0]
+                    if not realrun.identical(big[xsn][j_], alone):
+                        problems.append(f"{xsn}[{j_}] in the big run differs from its single-point run")
+                    if again is not None and not realrun.identical(again[xsn][j_], alone):
+                        problems.append(f"{xsn}[{j_}] of the second get_result differs from its single-point run")
+            except Exception as e:  # noqa
+                problems.append(f"{xsn}: single-point run raises {type(e).__name__}: {e}"[:160])
         sample = dict(TMC=tmc, process=process, pto=pto, sv=sv_kw, observables=list(obs), points=pts, probe=dict(obs=target_name, index=i), with_xs=with_xs, repeated=again is not None, problems=problems)
         chk.search_case("permuted_extended_vs_single", not problems, what="; ".join(problems) or "history", data=sample, sample=sample, nontrivial=any(np.any(v[0] != 0) for v in single.orders.values()))
 
